@@ -302,7 +302,8 @@ def counts_op(sym, N, dom, compound):
 # --------------------------------------------------------------------------
 BOUNDS = {
     'quick': 'n in [0,3] rows (symbolic); keys None|int, None|int|str, unbounded int, compound (None|int in [0,2))^2 with n<=2; '
-             'values unbounded int; buffersize {None,1,2}; presorted on key-sorted input; merge of 2 tables (<=2 rows each)',
+             'values unbounded int; buffersize {None,1,2}; presorted on key-sorted input; merge of 2 tables (<=2 rows each); cross-type '
+             'representative keys; mergeduplicates with a declared missing marker; an aggregate after a failed pass',
     'thorough': 'n in [0,4]; compound n<=3; merge 2x(<=3)',
 }
 OUTSIDE = 'more rows than the bound; float values (sums then depend on association order); user-supplied aggregation functions other than len/sum/list'
